@@ -162,7 +162,7 @@ func (m *Module) enableInlining() {
 			fmt.Fprintf(os.Stderr, "helper %s spliced into %s\n", h, call.Parent())
 		}
 		for i, p := range h.Params {
-			valueAlias[p] = call.Call.Args[i]
+			replaceUses(p, call.Call.Args[i])
 		}
 		var rets []*ssa.Return
 		for _, b := range h.Blocks {
@@ -174,12 +174,58 @@ func (m *Module) enableInlining() {
 			switch len(rets[0].Results) {
 			case 0:
 			case 1:
-				valueAlias[call] = rets[0].Results[0]
+				replaceUses(call, rets[0].Results[0])
 			default:
-				tupleAlias[call] = rets[0].Results
+				if refs := call.Referrers(); refs != nil {
+					for _, u := range append([]ssa.Instruction(nil), *refs...) {
+						if ex, ok := u.(*ssa.Extract); ok && ex.Index < len(rets[0].Results) {
+							replaceUses(ex, rets[0].Results[ex.Index])
+						}
+					}
+				}
 			}
 		}
 	}
+}
+
+// replaceUses makes every instruction that uses old use new instead. For a
+// helper with one call site the parameter *is* the argument and the call's
+// value *is* the operand of the only return, so the substitution is an
+// identity on values; it lets every rule compare values across the boundary of
+// a spliced helper without knowing that there is one.
+func replaceUses(old, new ssa.Value) {
+	if old == new {
+		return
+	}
+	refs := old.Referrers()
+	if refs == nil {
+		return
+	}
+	for _, instr := range *refs {
+		for _, op := range instr.Operands(nil) {
+			if *op == old {
+				*op = new
+			}
+		}
+	}
+	if nr := new.Referrers(); nr != nil {
+		*nr = append(*nr, *refs...)
+	}
+	movedRefs[old] = *refs
+	*refs = nil
+}
+
+// movedRefs remembers the users a value had before replaceUses moved them.
+var movedRefs = map[ssa.Value][]ssa.Instruction{}
+
+// usersOf lists the instructions that use v, including the users that were
+// moved to the value v is identical to (a spliced helper's call value).
+func usersOf(v ssa.Value) []ssa.Instruction {
+	var out []ssa.Instruction
+	if r := v.Referrers(); r != nil {
+		out = append(out, *r...)
+	}
+	return append(out, movedRefs[v]...)
 }
 
 // helperOf returns the helper spliced at call instruction in, or nil.
